@@ -109,4 +109,6 @@ ExplainLabs(pf, s, t, fuel) ==
                       ELSE ExplainLabs(pf, lab[2][2], lab[3][2], fuel - 1) \cup ExplainLabs(pf, lab[2][3], lab[3][3], fuel - 1)
                       : lab \in L }
 ExplainEqs(pf, s, t) == UNION { LabEqs(lab) : lab \in ExplainLabs(pf, s, t, 2 * Cardinality(DOMAIN pf)) }
+\* total version: the code asserts that s and t are in the same tree; {NoEq} is not an explanation of anything
+SafeExplainEqs(pf, s, t) == IF SameTree(pf, s, t) THEN ExplainEqs(pf, s, t) ELSE {NoEq}
 =============================================================================
